@@ -1,10 +1,10 @@
 SPECIFICATION Spec
 CONSTANTS
   N = 15
-  Ends <- EndsA
-  IsDoc <- IsDocA
-  IsBad <- NoBad5
-  ErrAts <- ErrA
+  Ends <- EndsC
+  IsDoc <- IsDocC
+  IsBad <- IsBadC
+  ErrAts <- ErrC
   QCap = 2
 INVARIANT PrefixInv
 INVARIANT TerminalLast
